@@ -6,7 +6,10 @@ From ADV Require Import Base.Num C04.Model C04.Spec C04.ProofsDet C04.ProofsBS C
 From ADV Require Import C04.ProofsGJ2 C04.ProofsGJ3 C04.ProofsGJ4 C04.ProofsSing C04.ProofsInv C04.ProofsDet2 C04.ProofsEx.
 From ADV Require Import C04.ProofsNaN C04.ProofsNaN2 C04.ProofsDet3.
 From ADV Require Import C04.Model2 C04.ProofsBuf C04.ProofsHist C04.ProofsPD.
+From Coq Require Import Reals.
+From ADV Require Import C10.Gen C04.ModelV C04.ModelV2 C04.ProofsV C04.ProofsV2 C04.ProofsV3 C04.ProofsV4.
 Import ListNotations.
+Local Open Scope nat_scope.
 
 (* ---- (4) determinant ---- *)
 Theorem determinant_naive_is_laplace :
@@ -538,3 +541,168 @@ Theorem history_independence :
     forall (cs : list (call (A:=A))) (past : list (result (A:=A))), Forall (wf_call n) cs ->
       run_hist N lg n env past cs = map (exec N lg n (fresh (A:=A))) cs.
 Proof. exact @run_hist_indep. Qed.
+
+(* ==================================================================== round 6: views of a larger workspace; LogScale *)
+
+(* ---- (7) operands / caller-supplied in-situ buffers that are VIEWS of a larger workspace ----
+   A workspace is the storage list of a dense matrix, a view is a header over it; index / Slice / T are the
+   definitions REGENERATED from /repo (C10.Gen); view_ok len n h = "h is a well-formed n x n view of a storage of
+   len cells" (any chain of Slice with row and column offsets, T, views of views).  For EVERY carrier: *)
+
+(* what is written through a view is what is read back through it, ... *)
+Theorem view_write_then_read :
+  forall (A : Type) (N : Num A) (len n : nat) (h : hdr), view_ok len n h = true ->
+  forall (s : list A) (m : list (list A)), length s = len -> wfm n m -> vload N n (vstore N n s h m) h = m.
+Proof. exact @vload_vstore. Qed.
+
+(* ... it lands in the cell index() computes, and every cell the view does not address keeps its value (frame) *)
+Theorem view_write_frame :
+  forall (A : Type) (N : Num A) (len n : nat) (h : hdr), view_ok len n h = true ->
+  forall (s : list A) (m : list (list A)), length s = len ->
+    length (vstore N n s h m) = len /\
+    (forall i j k d, sidx h i j = Some k -> nth k (vstore N n s h m) d = mget N m i j) /\
+    (forall k d, nohit n h k -> nth k (vstore N n s h m) d = nth k s d).
+Proof. exact @vstore_frame_all. Qed.
+
+Theorem view_read_then_write :
+  forall (A : Type) (N : Num A) (len n : nat) (h : hdr), view_ok len n h = true ->
+  forall (s : list A), length s = len -> vstore N n s h (vload N n s h) = s.
+Proof. exact @vstore_vload. Qed.
+
+(* (matrix).SwapRows(i, j) on a view — the element-level loop over Swap(i,k,j,k) through index() — IS the swap of
+   the rows i, j of the matrix the view denotes, written through; hence (view_write_frame) no cell outside the view
+   moves, whatever the offsets and the transposition flag *)
+Theorem swap_rows_on_view_is_logical_swap :
+  forall (A : Type) (N : Num A) (len n : nat) (h : hdr), view_ok len n h = true ->
+  forall (s : list A) (i j : nat), length s = len -> i < n -> j < n ->
+    v_swap_rows N n s h i j = Some (vstore N n s h (swap_l [] (vload N n s h) i j)).
+Proof. exact @v_swap_rows_spec. Qed.
+
+Example swap_rows_on_view_nontrivial :
+  view_ok 30 3 HA0 = true /\ d_transposed HA0 = true /\ (0 < d_rowOffset HA0)%Z /\ (0 < d_colOffset HA0)%Z /\
+  v_swap_rows NumZ 3 (map Z.of_nat (seq 0 30)) HA0 0 2 =
+  Some (map Z.of_nat [0;1;2;3;4;5;  6;7;10;9;8;11;  12;13;16;15;14;17;  18;19;22;21;20;23;  24;25;26;27;28;29]).
+Proof. exact (conj HA0_ok (conj eq_refl (conj eq_refl (conj eq_refl v_swap_rows_instance)))). Qed.
+
+(* gaussJordan.Run on views a, x (of two workspaces), modelled at the element level for the one non-At access
+   (permuteRows: SwapRows on the storages), IS: load the denoted matrices, run the logical model (the one all
+   theorems above are about), write the result through the views — for every carrier (binary64 / binary32 included),
+   both variants, every mask, every outcome *)
+Theorem gauss_jordan_on_views_is_logical_run :
+  forall (A : Type) (N : Num A) (lena lenx n : nat) (ha hx : hdr),
+    view_ok lena n ha = true -> view_ok lenx n hx = true ->
+  forall (dense ut : bool) (msk : list bool) (v : vst (A:=A)), okv lena lenx v ->
+    gj_run_v N dense ut n msk ha hx v = lift_v N n ha hx v (gj_run N dense ut n msk (load_st N n ha hx v)).
+Proof. exact @gj_run_v_eq. Qed.
+
+(* hence the FULL contract on views, over every field: the matrices the views denote after the run satisfy
+   gj_spec_full w.r.t. the ones they denoted before (p = the accumulated pivot permutation: row interchanges
+   included), and no other cell of either workspace changes *)
+Theorem gauss_jordan_on_views_correct :
+  forall (K : fld) (dense : bool) (n : nat) (msk : list bool) (lena lenx : nat) (ha hx : hdr) (v v' : vst (A:=K)),
+    view_ok lena n ha = true -> view_ok lenx n hx = true ->
+    length (wa v) = lena -> length (wx v) = lenx -> length (vb v) = n ->
+    (forall c, In c (gj_pivots (NumK K) n msk (load_st (NumK K) n ha hx v)) -> c <> f0 K) ->
+    gj_run_v (NumK K) dense false n msk ha hx v = Ok v' ->
+    gj_spec_full K n msk (fp (fwd (NumK K) n msk (load_st (NumK K) n ha hx v)))
+                 (load_st (NumK K) n ha hx v) (load_st (NumK K) n ha hx v') /\
+    length (wa v') = lena /\ length (wx v') = lenx /\
+    (forall k, nohit n ha k -> nth k (wa v') (zero (NumK K)) = nth k (wa v) (zero (NumK K))) /\
+    (forall k, nohit n hx k -> nth k (wx v') (zero (NumK K)) = nth k (wx v) (zero (NumK K))).
+Proof. exact gj_on_views_correct. Qed.
+
+Theorem gauss_jordan_on_views_returns :
+  forall (K : fld) (dense : bool) (n : nat) (msk : list bool) (lena lenx : nat) (ha hx : hdr) (v : vst (A:=K)),
+    view_ok lena n ha = true -> view_ok lenx n hx = true ->
+    length (wa v) = lena -> length (wx v) = lenx -> length (vb v) = n ->
+    (forall c, In c (gj_pivots (NumK K) n msk (load_st (NumK K) n ha hx v)) -> c <> f0 K) ->
+    exists v', gj_run_v (NumK K) dense false n msk ha hx v = Ok v'.
+Proof. exact gj_on_views_total. Qed.
+
+Theorem gauss_jordan_upper_triangular_on_views_correct :
+  forall (K : fld) (dense : bool) (n : nat) (msk : list bool) (lena lenx : nat) (ha hx : hdr) (v v' : vst (A:=K)),
+    view_ok lena n ha = true -> view_ok lenx n hx = true ->
+    length (wa v) = lena -> length (wx v) = lenx -> length (vb v) = n ->
+    upper_tri_S K (idxs msk 0 n) (vload (NumK K) n (wa v) ha) -> diag_nonzero_S K (idxs msk 0 n) (vload (NumK K) n (wa v) ha) ->
+    upper_tri_S K (idxs msk 0 n) (vload (NumK K) n (wx v) hx) ->
+    gj_run_v (NumK K) dense true n msk ha hx v = Ok v' ->
+    gj_spec_full K n msk (seq 0 n) (load_st (NumK K) n ha hx v) (load_st (NumK K) n ha hx v') /\
+    length (wa v') = lena /\ length (wx v') = lenx /\
+    (forall k, nohit n ha k -> nth k (wa v') (zero (NumK K)) = nth k (wa v) (zero (NumK K))) /\
+    (forall k, nohit n hx k -> nth k (wx v') (zero (NumK K)) = nth k (wx v) (zero (NumK K))).
+Proof. exact gj_ut_on_views_correct. Qed.
+
+(* the hypotheses are satisfiable by views with non-zero row AND column offsets, one of them transposed, the other a
+   window of a transpose, on input whose pivoting interchanges rows in a 3-cycle (the witness of the repaired defect) *)
+Example gauss_jordan_on_views_nontrivial :
+  view_ok 30 3 HA0 = true /\ view_ok 16 3 HX0 = true /\
+  d_transposed HA0 = true /\ (0 < d_rowOffset HA0)%Z /\ (0 < d_colOffset HA0)%Z /\
+  length (wa V0) = 30 /\ length (wx V0) = 16 /\ length (vb V0) = 3 /\
+  load_st (NumK QcK) 3 HA0 HX0 V0 = W0 /\
+  (forall c, In c (gj_pivots (NumK QcK) 3 (all_true 3) (load_st (NumK QcK) 3 HA0 HX0 V0)) -> c <> f0 QcK) /\
+  fp (fwd (NumK QcK) 3 (all_true 3) (load_st (NumK QcK) 3 HA0 HX0 V0)) = [2; 0; 1].
+Proof. exact V0_instance. Qed.
+
+(* ---- (3v) matrixInverse.Run with caller-supplied InSitu.A / InSitu.Id that are views of larger workspaces ----
+   m_inverse_v (ModelV2): Id is reset to the identity THROUGH its view, the matrix is copied into InSitu.A THROUGH its
+   view, gaussJordan.Run runs on the two views (gj_run_v).  For every carrier this is the logical run on
+   (m, I, 1), written through — whatever the workspaces held (the buffers' prior content never matters) ... *)
+Theorem matrix_inverse_on_view_buffers_is_logical_run :
+  forall (A : Type) (N : Num A) (lenA lenI n : nat) (hA hId : hdr),
+    view_ok lenA n hA = true -> view_ok lenI n hId = true ->
+  forall (dense ut : bool) (omsk : option (list bool)) (wA wId : list A) (bB : option (list A)) (m : list (list A)),
+    length wA = lenA -> length wId = lenI -> (forall b, bB = Some b -> length b = n) -> wfm n m ->
+    m_inverse_v N dense ut n omsk hA hId wA wId bB m =
+    lift_v N n hA hId (mkV wA wId [])
+           (gj_run N dense ut n (match omsk with Some s => s | None => all_true n end) (mkSt m (ident N n) (ones N n))).
+Proof. exact @m_inverse_v_eq. Qed.
+
+(* ... hence over every field the matrix InSitu.Id denotes after the run satisfies the full inverse contract, and
+   no cell of either workspace outside the views changes (plain mode; then the UpperTriangular mode) *)
+Theorem matrix_inverse_on_view_buffers_correct :
+  forall (K : fld) (dense : bool) (n : nat) (msk : list bool) (lenA lenI : nat) (hA hId : hdr)
+         (wA wId : list K) (bB : option (list K)) (m : list (list K)) (v' : vst (A:=K)),
+    view_ok lenA n hA = true -> view_ok lenI n hId = true ->
+    length wA = lenA -> length wId = lenI -> (forall b, bB = Some b -> length b = n) -> wf_mat K n m ->
+    (forall c, In c (gj_pivots (NumK K) n msk (mkSt m (ident (NumK K) n) (ones (NumK K) n))) -> c <> f0 K) ->
+    m_inverse_v (NumK K) dense false n (Some msk) hA hId wA wId bB m = Ok v' ->
+    inv_spec K n msk m (vload (NumK K) n (wx v') hId) /\
+    length (wa v') = lenA /\ length (wx v') = lenI /\
+    (forall k, nohit n hA k -> nth k (wa v') (zero (NumK K)) = nth k wA (zero (NumK K))) /\
+    (forall k, nohit n hId k -> nth k (wx v') (zero (NumK K)) = nth k wId (zero (NumK K))).
+Proof. exact inverse_on_view_buffers_correct. Qed.
+
+Theorem matrix_inverse_upper_triangular_on_view_buffers_correct :
+  forall (K : fld) (dense : bool) (n : nat) (msk : list bool) (lenA lenI : nat) (hA hId : hdr)
+         (wA wId : list K) (bB : option (list K)) (m : list (list K)) (v' : vst (A:=K)),
+    view_ok lenA n hA = true -> view_ok lenI n hId = true ->
+    length wA = lenA -> length wId = lenI -> (forall b, bB = Some b -> length b = n) -> wf_mat K n m ->
+    upper_tri_S K (idxs msk 0 n) m -> diag_nonzero_S K (idxs msk 0 n) m ->
+    m_inverse_v (NumK K) dense true n (Some msk) hA hId wA wId bB m = Ok v' ->
+    inv_spec K n msk m (vload (NumK K) n (wx v') hId) /\
+    length (wa v') = lenA /\ length (wx v') = lenI /\
+    (forall k, nohit n hA k -> nth k (wa v') (zero (NumK K)) = nth k wA (zero (NumK K))) /\
+    (forall k, nohit n hId k -> nth k (wx v') (zero (NumK K)) = nth k wId (zero (NumK K))).
+Proof. exact inverse_ut_on_view_buffers_correct. Qed.
+
+Example matrix_inverse_on_view_buffers_nontrivial :
+  view_ok 30 3 HA0 = true /\ view_ok 16 3 HX0 = true /\ wf_mat QcK 3 (qc Wz) /\
+  (forall c, In c (gj_pivots (NumK QcK) 3 (all_true 3) (mkSt (qc Wz) (ident (NumK QcK) 3) (ones (NumK QcK) 3))) -> c <> f0 QcK) /\
+  exists v', m_inverse_v (NumK QcK) true false 3 (Some (all_true 3)) HA0 HX0 (repeat (f1 QcK) 30) (repeat (f1 QcK) 16) None (qc Wz) = Ok v'.
+Proof. exact inverse_view_instance. Qed.
+
+(* ---- (4''') LogScale ---- determinant.Run(a, PositiveDefinite{true}, LogScale{true}) over R (math.Log := ln): the
+   value is the natural logarithm of what the product form returns, for every n, every input, every prior content
+   of InSitu.Cholesky.L.  HYPOTHESIS (the subject of C05): the Cholesky factor has a positive diagonal.  No range
+   restriction: over R the product never leaves the range — on floats it does (size x scale), which is what the
+   correspondence and the oracle exercise. *)
+Theorem log_determinant_is_log_of_determinant :
+  forall (n : nat) (m : list (list R)) (bufL : option (list (list R))) (L : list (list R)),
+    cholesky NumR n m (buf_m NumR n bufL) = Ok L -> (forall i, i < n -> (0 < mget NumR L i i)%R) ->
+    exists d, det_pd_insitu NumR ln false n bufL m = Ok d /\ (0 < d)%R /\ det_pd_insitu NumR ln true n bufL m = Ok (ln d).
+Proof. exact log_det_is_ln_det. Qed.
+
+Example log_determinant_nontrivial :
+  cholesky NumR 2 [[4; 0]; [0; 9]]%R (buf_m NumR 2 None) = Ok [[2; 0]; [0; 3]]%R /\
+  (forall i, i < 2 -> (0 < mget NumR [[2; 0]; [0; 3]]%R i i)%R).
+Proof. exact log_det_instance. Qed.
